@@ -36,6 +36,14 @@ Mutations caught (private copy, `VF_REPO=/tmp/wt-bulk/c44 ./check C44`), all in 
      -> lost-update (P1+P2: s1.L s0.L s0.W s0.C s1.D s1.C)
   v5 _emit_delete_statements: rowcount mismatch only warns even with versioning (`only_warn = True`)
      -> lost-update, commit-result, final-row
+  Joined-table inheritance worlds (version counter on the base table), _collect_update_commands' scan for
+  "history only in another table":
+  i1 scan narrowed from all mapped columns to the columns of mapper.local_table
+     -> version-not-new / lost-update / commit-result, gen=inh3 programs=P1:b+P1:i (change only in the intermediate table)
+  i2 scan restricted to the columns of the table that carries the version column
+     -> same failures already for gen=inh2 programs=P1:b+P1:l
+  i3 `if history.added or history.deleted` -> `if history.added` (del obj.attr no longer counts)
+     -> version-not-new / lost-update, programs=P1:b+P1:d
 """
 from __future__ import annotations
 
@@ -65,7 +73,11 @@ META = dict(
     technique="stateless model checking of session interleavings (all schedules of the sessions' database steps, exact "
     "partial-order reduction of in-memory steps), serial-history reference model checked after every step",
     design_ref="DESIGN.md §5 C44",
-    level_text="Two (quick) / three (thorough) real Sessions with separate connections to one WAL-mode SQLite file database "
+    level_text="[Inheritance worlds: two- and three-level joined-table inheritance (person -> employee -> manager) with the "
+    "version counter on the base table; the four basic programs with a write that touches only the base table / only the "
+    "intermediate table / only the leaf table / `del obj.attr` on a sub-table attribute / only a relationship (child row "
+    "added, versioned row not written: version may stay, nothing may be overwritten), each against four opponent programs "
+    "(quick) or all pairs and triples (thorough).] Two (quick) / three (thorough) real Sessions with separate connections to one WAL-mode SQLite file database "
     "(timeout 0) run programs from a 9-program family (load/set/flush/commit, delete, commit-then-modify with and without "
     "expire_on_commit, rollback, two rounds, two rows in one flush, disjoint row); every interleaving of their database "
     "steps is executed, for client integer counters, a custom version_id_generator (UUID-like tokens) and server-side "
@@ -83,9 +95,10 @@ META = dict(
     "writes to the same row",
     assumptions=["one process, sessions driven step by step by the harness (no OS threads)", "SQLite 3.40 WAL, busy timeout 0"],
     bounds=dict(
-        quick="all unordered pairs of 9 programs x all interleavings x 3 version generators x 2 transaction modes",
+        quick="all unordered pairs of 9 programs x all interleavings x 3 version generators x 2 transaction modes; inheritance "
+        "(2 and 3 levels): {P1,P4,P5} x 4-5 write kinds + P2, each against 4 opponent programs, 2 transaction modes",
         thorough="quick + three sessions: all unordered triples of programs {P1,P2,P4,P5} (counter generator) / {P1,P2,P5} (uuid, "
-        "server) x all interleavings (up to 34650 per triple) x 2 transaction modes",
+        "server) x all interleavings (up to 34650 per triple) x 2 transaction modes; inheritance: all pairs of the 13/16 programs + triples of 4",
     ),
 )
 
